@@ -18,15 +18,15 @@ THEOREMS = ["history_independent", "table_queries_independent", "names_queries_a
             "clones_independent", "clone_is_fresh", "decoders_disagree_refuted", "corrupt_batch_refuted",
             "too_many_entries_refuted", "short_segment_refuted"]
 RULE = ("real archives: `small` (3 samples, compressed + stored-raw references, raw groups, 1-2 base contigs), `big` "
-        "(60 samples = 2 catalogue batches of 50+10), `k2` (k=2: stored-raw reference of 2 bases, regression for "
+        "(75 samples = 2 catalogue batches of 50+25, 5% divergence so that every LZ group has > 50 distinct deltas = two packs per delta stream), `k2` (k=2: stored-raw reference of 2 bases, regression for "
         "709bfda), thorough: + random sample sets with random parameters. Ops: every public query of Decompressor "
         "(list_samples, list_samples_with_prefix, get_compression_stats, list_contigs, get_sample, get_contig, "
         "get_contig_range, get_contig_length, get_contig_segments_desc, get_segment_data_by_desc, get_all_segments, "
         "get_group_statistics, get_reference_segment) x first/last/second-batch/unknown sample, first/last/unknown "
         "contig, compressed-reference / stored-raw-reference / raw / unknown group, existing / out-of-range / unknown "
-        "descriptors. ALL sequences of length 3 over the 42-op alphabet and ALL of length 4 over 12 (quick) / 20 "
+        "descriptors. ALL sequences of length 3 over the 43-op alphabet (sg:DD / sg:DP = two descriptors of one group in different packs of its delta stream) and ALL of length 4 over 12 (quick) / 20 "
         "(thorough) ops on each of the 3 archives (quick: k2 gets length 3 over 26 ops only; thorough: + length 3 over 26 ops on 17 random archives), random "
-        "sequences of length 10-30 over 42 ops, cloned readers in 2-8 threads with yield_point perturbation while "
+        "sequences of length 10-30 over 43 ops, cloned readers in 2-8 threads with yield_point perturbation while "
         "the parent keeps answering. Model side: the extracted ReaderState model on the abstract archive read from "
         "the real one predicts class AND full answer (hash) of both columns. non-trivial = a sequence with >= 2 ops "
         "of which one is answered Ok; distinct = distinct case line")
@@ -57,8 +57,8 @@ QA = ["ls", "lp:P0", "cs", "lc:S0", "lc:SX", "gs:S0", "gs:SL", "gs:SX", "gc:S0:C
 FULL = ["ls", "lp:P0", "lp:PX", "cs", "lc:S0", "lc:SL", "lc:SB", "lc:SX", "gs:S0", "gs:SL", "gs:SB", "gs:SX", "gc:S0:C0",
         "gc:SL:CL", "gc:SB:C0", "gc:S0:CX", "gc:SX:C0", "gr:S0:C0:5:40", "gr:SL:CL:0:max", "gr:SB:C0:30:31", "gr:SX:C0:0:9",
         "gr:S0:CX:0:9", "gr:S0:C0:9:9", "gl:S0:C0", "gl:SL:CL", "gl:SX:CX", "gl:S0:CX", "sd:S0:C0", "sd:SL:CL", "sd:SX:C0",
-        "sg:D0", "sg:DL", "sg:DD", "sg:DR", "sg:DX", "sg:DY", "as", "gst", "rs:GL", "rs:GW", "rs:GR", "rs:GX"]
-A12 = ["lc:S0", "gs:SL", "gs:SX", "gc:S0:CX", "gr:SL:CL:0:max", "as", "gst", "rs:GL", "rs:GW", "rs:GX", "sg:DD", "sg:DX"]
+        "sg:D0", "sg:DL", "sg:DD", "sg:DP", "sg:DR", "sg:DX", "sg:DY", "as", "gst", "rs:GL", "rs:GW", "rs:GR", "rs:GX"]
+A12 = ["lc:S0", "gs:SL", "gs:SX", "gc:S0:CX", "gr:SL:CL:0:max", "as", "gst", "rs:GL", "rs:GW", "sg:DP", "sg:DD", "sg:DX"]
 SMALL4 = ["lc:S0", "gs:S0", "gs:SL", "gs:SX", "gc:SL:CL", "gc:S0:CX", "gr:SL:CL:0:max", "gl:SX:CX", "sd:S0:CX", "as",
           "gst", "rs:GL", "rs:GW", "rs:GX", "sg:DD", "sg:DX"]
 A20 = SMALL4 + ["ls", "gl:S0:C0", "sd:SL:CL", "rs:GR"]
@@ -87,7 +87,7 @@ def _write(dirpath, samples):
 
 
 def _archives(rng, tier, seed_tag):
-    root = os.path.join(VERIF, ".cache", "c08", f"{seed_tag}-{_repo_key()}")
+    root = os.path.join(VERIF, ".cache", "c08", f"g2-{seed_tag}-{_repo_key()}")   # g2: generator version
     os.makedirs(root, exist_ok=True)
     out = []
     base = gs.rand_seq(rng, 700)
@@ -97,7 +97,9 @@ def _archives(rng, tier, seed_tag):
     s2 = [("chr0", gs.revcomp(gs.mutate(rng, base, 0.01))), ("only2", gs.rand_seq(rng, 90))]
     _write(os.path.join(root, "small"), [("S000", s0), ("S001", s1), ("S002", s2)])
     out.append((os.path.join(root, "small"), "11,200,15,50,2,2147483648,0"))
-    _write(os.path.join(root, "big"), gs.gen_big_group(rng, 60, clen=120, div=0.02))
+    # 75 samples, 5% divergence: > 50 DISTINCT deltas per LZ group, so every delta stream has two packs and the
+    # second-batch sample (SB) and the last sample (SL) sit in different packs of the same streams
+    _write(os.path.join(root, "big"), gs.gen_big_group(rng, 75, clen=120, div=0.05))
     out.append((os.path.join(root, "big"), "11,50,15,50,4,2147483648,0"))
     _write(os.path.join(root, "k2"), [("r0", [("c", "CAT")]), ("r1", [("c", "CAT"), ("d", "C")])])
     out.append((os.path.join(root, "k2"), "2,5,15,50,1,2147483648,0"))
